@@ -9,7 +9,18 @@
      bigram_step_any         one bigram step WITHOUT the [nocommon] premise
      compute_phrase_freqs_bounds   the chain, either strategy, on arbitrary canonical posting lists
      phrase_repeats_bounds   on the index of any corpus: positive iff the phrase occurs, and
-                             occ_nonoverlap <= freq <= occ *)
+                             occ_nonoverlap <= freq <= occ
+
+   Shape of the argument.  Whichever branch a step takes, its continuation is the ordinary one (END / START
+   positions of ALL matched bigrams), so the chain of continuations is the one of Phrase_Proofs3; only the
+   per-step counts differ.  Each step's count of a document is bounded above by the number of matches and
+   below by the size of ANY family of pairwise disjoint matches (starts >= 2 apart): in the ordinary branch
+   because the count is the number of matches, in the same-term branch because per word the adjusted count
+   dominates the greedy number of disjoint pairs, which is optimal (GL_optimal).  The final answer is the
+   minimum of the step counts (0 for an unlisted document); the offsets taken by the greedy non-overlapping
+   scan are >= length ph >= 2 apart, so they induce such a family at every step.  No case analysis on WHERE
+   the same-term branch fires is needed (it can fire in the middle of a chain, e.g. 'b a a' when every
+   'a' of the shared words follows a 'b').  No restriction on the phrase beyond 2 <= length. *)
 From Coq Require Import Sorted Permutation.
 From SA Require Import Base.Prelude Kernels.Spec Kernels.Intersect Kernels.Linear Kernels.Intersect_Correct
   Kernels.Adjacent_Correct Kernels.Linear_Proofs Codec.Codec Codec.Codec_Spec Codec.Codec_Proofs
@@ -70,3 +81,957 @@ Proof.
   apply andb_true_iff in H. destruct H as [H H3]. apply andb_true_iff in H. destruct H as [H1 H2].
   apply N.leb_le in H1. apply N.leb_le in H2. apply N.eqb_eq in H3. auto.
 Qed.
+
+(* ------------------------------------------------------------------ *)
+(* 1. greedy pairs: shift invariance and optimality                    *)
+(* ------------------------------------------------------------------ *)
+Lemma list_ind2 {X} (P : list X -> Prop) :
+  P [] -> (forall x, P [x]) -> (forall x y t, P t -> P (y :: t) -> P (x :: y :: t)) -> forall l, P l.
+Proof.
+  intros H0 H1 H2. assert (H : forall l, P l /\ forall x, P (x :: l)).
+  { induction l as [|y t [IH1 IH2]]; [split; [exact H0|exact H1]|].
+    split; [apply IH2|]. intro x. apply H2; [exact IH1|apply IH2]. }
+  intro l. apply H.
+Qed.
+
+Lemma GL_cons2 x y t : GL (x :: y :: t) = if y =? x + 1 then 1 + GL t else GL (y :: t).
+Proof. reflexivity. Qed.
+
+Lemma GL_shift c : forall l, GL (map (fun i => c + i) l) = GL l.
+Proof.
+  apply (list_ind2 (fun l => GL (map (fun i => c + i) l) = GL l)); [reflexivity|reflexivity|].
+  intros x y t IH1 IH2. cbn [map] in *. rewrite !GL_cons2, IH1, IH2.
+  replace (c + y =? c + x + 1) with (y =? x + 1); [reflexivity|].
+  destruct (N.eqb_spec y (x + 1)), (N.eqb_spec (c + y) (c + x + 1)); try reflexivity; lia.
+Qed.
+
+Definition gap2 (a b : N) : Prop := a + 2 <= b.
+
+Lemma ss_filter_gen {X} (R : X -> X -> Prop) (P : X -> bool) l :
+  StronglySorted R l -> StronglySorted R (filter P l).
+Proof.
+  induction 1 as [|a t Hs IH Hf]; cbn [filter]; [constructor|].
+  destruct (P a); [|exact IH]. constructor; [exact IH|]. apply Forall_filter'. exact Hf.
+Qed.
+
+Lemma ss_map_gen {X Y} (R : X -> X -> Prop) (S : Y -> Y -> Prop) (f : X -> Y) l :
+  (forall a b, R a b -> S (f a) (f b)) -> StronglySorted R l -> StronglySorted S (map f l).
+Proof.
+  intros Hf. induction 1 as [|a t Hs IH Hfa]; cbn [map]; constructor; [exact IH|].
+  apply Forall_map. eapply Forall_impl; [|exact Hfa]. intros b Hb. apply Hf. exact Hb.
+Qed.
+
+Lemma gap2_lt l : StronglySorted gap2 l -> StronglySorted N.lt l.
+Proof.
+  induction 1 as [|a t Hs IH Hf]; constructor; [exact IH|].
+  eapply Forall_impl; [|exact Hf]. unfold gap2. intros; lia.
+Qed.
+Lemma gap2_nodup l : StronglySorted gap2 l -> NoDup l.
+Proof. intro H. apply ss_lt_nodup', gap2_lt. exact H. Qed.
+
+(* any family of pairwise disjoint adjacent pairs of L is at most as large as the greedy one *)
+Lemma GL_optimal : forall L M, StronglySorted N.lt L -> StronglySorted gap2 M ->
+  (forall s, In s M -> In s L /\ In (s + 1) L) -> N.of_nat (length M) <= GL L.
+Proof.
+  intro L. pattern L. apply list_ind2; clear L.
+  - intros M _ _ H. destruct M as [|s M]; [cbn; lia|]. destruct (H s (or_introl eq_refl)) as [[] _].
+  - intros x M _ _ H. destruct M as [|s M]; [cbn; lia|]. exfalso.
+    destruct (H s (or_introl eq_refl)) as [[E1|[]] [E2|[]]]. lia.
+  - intros x y t IH1 IH2 M HL HM H. rewrite GL_cons2.
+    apply StronglySorted_inv in HL. destruct HL as [HL' Hx].
+    pose proof (StronglySorted_inv HL') as [HL'' Hy].
+    rewrite Forall_forall in Hx, Hy.
+    assert (Hxy : x < y) by (apply Hx; now left).
+    destruct (N.eqb_spec y (x + 1)) as [E|NE].
+    + (* the greedy pair (x, x+1); at most one member of M is <= y *)
+      set (M2 := filter (fun s => y <? s) M).
+      assert (H2 : N.of_nat (length M2) <= GL t).
+      { apply IH1; [exact HL''|apply ss_filter_gen; exact HM|].
+        intros s Hs. apply filter_In in Hs. destruct Hs as [Hs Hlt]. apply N.ltb_lt in Hlt.
+        destruct (H s Hs) as [[E1|[E1|E1]] [E2|[E2|E2]]]; try lia. split; assumption. }
+      assert (H1 : (length M <= S (length M2))%nat).
+      { unfold M2. destruct M as [|s1 M1]; [cbn; lia|]. apply StronglySorted_inv in HM. destruct HM as [HM1 Hg].
+        cbn [filter length]. assert (EM : filter (fun s => y <? s) M1 = M1).
+        { rewrite <- (filter_true M1) at 2. apply filter_ext_in. intros s Hs.
+          rewrite Forall_forall in Hg. specialize (Hg s Hs). unfold gap2 in Hg.
+          assert (x <= s1).
+          { destruct (H s1 (or_introl eq_refl)) as [[E1|[E1|E1]] _]; try lia. specialize (Hx s1 (or_intror E1)). lia. }
+          apply N.ltb_lt. lia. }
+        rewrite EM. destruct (y <? s1); cbn [length]; lia. }
+      lia.
+    + apply IH2; [exact HL'|exact HM|]. intros s Hs.
+      destruct (H s Hs) as [H1 H2].
+      assert (Hne : s <> x).
+      { intro; subst s. destruct H2 as [E2|[E2|E2]]; try lia. specialize (Hy _ E2). lia. }
+      destruct H1 as [E1|H1]; [congruence|]. split; [exact H1|].
+      destruct H2 as [E2|H2]; [|exact H2]. exfalso.
+      assert (x < s) by (destruct H1 as [<-|H1]; [exact Hxy|specialize (Hy _ H1); lia]). lia.
+Qed.
+
+(* ------------------------------------------------------------------ *)
+(* 2. the same-term word operations, on the payload                    *)
+(* ------------------------------------------------------------------ *)
+Lemma lsb_land a b : lsb (N.land a b) = N.land (lsb a) (lsb b).
+Proof.
+  apply N.bits_inj. intro i. rewrite N.land_spec, !lsb_testbit, N.land_spec.
+  destruct (i <? 18), (N.testbit a i), (N.testbit b i); reflexivity.
+Qed.
+
+Lemma lsb_wshl1 w : lsb (wshl w 1) = sh18 (lsb w).
+Proof.
+  rewrite !lsb_arith. unfold wshl, sh18. rewrite N.shiftl_mul_pow2, W64_val. change (2 ^ 1) with 2.
+  change 18446744073709551616 with (262144 * 70368744177664).
+  rewrite N.mod_mul_r by lia.
+  replace ((w * 2) mod 262144 + 262144 * ((w * 2 / 262144) mod 70368744177664)) with
+          ((w * 2) mod 262144 + ((w * 2 / 262144) mod 70368744177664) * 262144) by lia.
+  rewrite N.mod_add by lia. rewrite N.mod_mod by lia.
+  rewrite (N.mul_comm 2), N.mul_mod_idemp_l by lia. reflexivity.
+Qed.
+
+Lemma same_term_adjusted_payload x : same_term_adjusted x x = adjp (lsb x).
+Proof.
+  unfold same_term_adjusted, adjp. cbv zeta.
+  rewrite !lsb_land, !lsb_wshl1, lsb_land, lsb_wshl1. reflexivity.
+Qed.
+
+Lemma ov_self x : ov x x = N.land (lsb x) (N.shiftr (lsb x) 1).
+Proof. reflexivity. Qed.
+
+Lemma wnot_plm : wnot payload_lsb_mask = header_mask.
+Proof. vm_compute. reflexivity. Qed.
+
+Lemma same_rhs_cont_self x : x < 18446744073709551616 -> same_term_rhs_cont x x = cwR x x.
+Proof.
+  intro Hx. unfold same_term_rhs_cont, cwR. rewrite wnot_plm. fold (hdr x). f_equal.
+  rewrite lsb_land, lsb_wshl1. fold (lsb (wshl (ov x x) 1)). rewrite lsb_wshl1.
+  pose proof (ov_lt x x) as Ho. rewrite (lsb_arith (ov x x)), N.mod_small by lia.
+  rewrite ov_self. apply payload_facts. apply lsb_lt.
+Qed.
+
+Lemma same_lhs_cont_self x : same_term_lhs_cont x = cwL x x.
+Proof. unfold same_term_lhs_cont, cwL. rewrite wnot_plm. fold (hdr x). rewrite ov_self. apply N.lor_comm. Qed.
+
+Lemma GL_wposns x : GL (wposns x) = GL (bit_list (lsb x)).
+Proof. unfold wposns. apply GL_shift. Qed.
+
+(* the three word facts used below *)
+Theorem same_term_word x : x < 18446744073709551616 ->
+  GL (wposns x) <= same_term_adjusted x x /\ same_term_adjusted x x <= popcount (ov x x) /\
+  same_term_rhs_cont x x = cwR x x /\ same_term_lhs_cont x = cwL x x.
+Proof.
+  intro Hx. pose proof (payload_facts (lsb x) (lsb_lt x)) as (H1 & H2 & _).
+  rewrite GL_wposns, same_term_adjusted_payload, ov_self.
+  split; [exact H1|]. split; [exact H2|]. split; [apply same_rhs_cont_self; exact Hx|apply same_lhs_cont_self].
+Qed.
+
+(* ------------------------------------------------------------------ *)
+(* 3. _inner_bigram_freqs without the [nocommon] premise               *)
+(* ------------------------------------------------------------------ *)
+Definition same_kvs (ps : list (N * N)) : list (N * N) :=
+  map (fun p => (key (fst p), same_term_adjusted (fst p) (snd p))) ps.
+Definition is_same (ps : list (N * N)) : bool := list_eqb (map fst ps) (map snd ps).
+Definition gen_kvs (ps : list (N * N)) : list (N * N) := if is_same ps then same_kvs ps else inner_kvs ps.
+
+Lemma is_same_true : forall ps, is_same ps = true -> forall p, In p ps -> fst p = snd p.
+Proof.
+  unfold is_same, list_eqb. intros ps H p Hp. apply andb_true_iff in H. destruct H as [_ H].
+  rewrite combine_fst_snd in H. rewrite forallb_forall in H. apply N.eqb_eq. apply H. exact Hp.
+Qed.
+
+Lemma gen_kvs_keys ps : map fst (gen_kvs ps) = map (fun p => key (fst p)) ps.
+Proof. unfold gen_kvs, same_kvs, inner_kvs. destruct (is_same ps); rewrite map_map; reflexivity. Qed.
+
+Lemma inner_bigram_any c ps : (forall p, In p ps -> fst p < 18446744073709551616) ->
+  inner_bigram c (map fst ps) (map snd ps) = AOk (runs_sum (gen_kvs ps), map (contI c) ps).
+Proof.
+  intro H64. unfold inner_bigram. rewrite !map_length, Nat.eqb_refl. cbn [negb].
+  destruct ps as [|p ps]; [reflexivity|].
+  set (L := map fst (p :: ps)) in *. set (R := map snd (p :: ps)) in *.
+  assert (EL : L = fst p :: map fst ps) by reflexivity. rewrite EL at 1.
+  unfold gen_kvs, is_same. fold L. fold R.
+  destruct (list_eqb L R) eqn:Heq.
+  - pose proof (is_same_true (p :: ps) Heq) as Hsame.
+    rewrite key_sum_over_correct by (unfold L, R; rewrite map_length, map2_fst_snd, !map_length; reflexivity).
+    cbn [unpy lift abind]. f_equal. f_equal.
+    + unfold key_sum_over_spec, same_kvs, L, R. rewrite map2_fst_snd, !map_map, combine_map2. reflexivity.
+    + unfold L, R. destruct c.
+      * rewrite map_map. apply map_ext_in. intros q Hq. cbn [contI]. rewrite <- (Hsame q Hq).
+        apply same_lhs_cont_self.
+      * rewrite map2_fst_snd. apply map_ext_in. intros q Hq. cbn [contI]. rewrite <- (Hsame q Hq).
+        apply same_rhs_cont_self. apply H64. exact Hq.
+  - rewrite popcount_reduce_at_correct by (unfold L, R; rewrite map_length, map2_fst_snd, !map_length; reflexivity).
+    cbn [unpy lift abind]. f_equal. f_equal.
+    + unfold popcount_reduce_at_spec, L, R. rewrite map2_fst_snd, !map_map, combine_map2. reflexivity.
+    + unfold L, R. destruct c.
+      * rewrite map2_map2_l, map2_fst_snd. reflexivity.
+      * rewrite map2_map2_r, map2_fst_snd. reflexivity.
+Qed.
+
+(* ------------------------------------------------------------------ *)
+(* 4. bigram_freqs on any two well-formed posting lists                *)
+(* ------------------------------------------------------------------ *)
+Definition any_counts (A B : list N) : list (N * N) :=
+  let pfi := runs_sum (gen_kvs (ipairs A B)) in
+  let pfa := run_counts (np_sort (map (fun p => key (fst p)) (aps A B))) in
+  sort_merge_counts_spec (map fst pfi) (map snd pfi) (map fst pfa) (map snd pfa).
+
+Section AnyStep.
+Variables (c : cont) (A B : list N).
+Hypothesis HA : wf_post A.
+Hypothesis HB : wf_post B.
+
+Lemma bigram_freqs_any : N.of_nat (length A) < 2 ^ 62 -> N.of_nat (length B) < 2 ^ 62 ->
+  bigram_freqs c A B = AOk (any_counts A B, step_next c A B).
+Proof.
+  intros HlA HlB. unfold bigram_freqs.
+  destruct (kernel_pairs A B HA HB HlA HlB) as (ia & E & E1 & E2 & E3 & E4).
+  rewrite E. cbn [lift abind]. rewrite E1, E2, E3, E4.
+  rewrite inner_bigram_any.
+  2:{ intros p Hp. apply (ipairs_wf A B HA HB) in Hp. tauto. }
+  cbn [abind]. rewrite adjacent_bigram_generic. fold (aps A B).
+  cbv beta iota zeta.
+  rewrite sort_merge_counts_correct.
+  - cbn [lift abind]. fold (NI c A B). fold (NA c A B).
+    rewrite set_adjbit_spec.
+    + reflexivity.
+    + apply NI_sorted; assumption.
+    + apply NA_sorted; assumption.
+    + pose proof (NI_length c A B). rewrite pow62 in *. lia.
+    + pose proof (NA_length c A B). rewrite pow62 in *. lia.
+  - rewrite !map_length. reflexivity.
+  - rewrite !map_length. reflexivity.
+  - apply StronglySorted_Sorted, runs_sum_sorted_keys. rewrite gen_kvs_keys.
+    rewrite <- (map_map fst key). apply ss_key_of_hdr.
+    + rewrite map_map. apply ipairs_sorted. exact HA.
+    + apply Forall_map, Forall_forall. intros p Hp. apply (ipairs_wf A B HA HB) in Hp. tauto.
+  - apply StronglySorted_Sorted. rewrite run_counts_runs_sum. apply runs_sum_sorted_keys.
+    rewrite map_map. cbn [fst]. rewrite map_id. apply np_sort_sorted.
+Qed.
+End AnyStep.
+
+(* ------------------------------------------------------------------ *)
+(* 5. the counts of one step: between any disjoint family and all matches *)
+(* ------------------------------------------------------------------ *)
+Definition look0 (d : N) (cs : list (N * N)) : N := match lookup d cs with Some v => v | None => 0 end.
+
+Lemma nsum_le f g l : (forall x, In x l -> f x <= g x) -> nsum f l <= nsum g l.
+Proof.
+  induction l as [|x l IH]; intro H; [cbn; lia|]. cbn [nsum fold_right]. fold (nsum f l). fold (nsum g l).
+  pose proof (H x (or_introl eq_refl)). pose proof (IH (fun y Hy => H y (or_intror Hy))). lia.
+Qed.
+Lemma nsum_ge_in f l x : In x l -> f x <= nsum f l.
+Proof.
+  induction l as [|y l IH]; intros []; cbn [nsum fold_right]; fold (nsum f l).
+  - subst. lia.
+  - specialize (IH H). lia.
+Qed.
+Lemma nsum_cons f x l : nsum f (x :: l) = f x + nsum f l.
+Proof. reflexivity. Qed.
+
+(* a list all of whose members are covered by some x is at most the sum of the covered parts *)
+Lemma cover_count (f : N -> N -> bool) Xs : forall M : list N,
+  (forall s, In s M -> exists x, In x Xs /\ f x s = true) ->
+  N.of_nat (length M) <= nsum (fun x => N.of_nat (length (filter (f x) M))) Xs.
+Proof.
+  induction M as [|s M IH]; intro H; [cbn [length]; lia|].
+  assert (E : nsum (fun x => N.of_nat (length (filter (f x) (s :: M)))) Xs =
+              nsum (fun x => (if f x s then 1 else 0) + N.of_nat (length (filter (f x) M))) Xs).
+  { apply nsum_ext_in. intros x _. cbn [filter]. destruct (f x s); cbn [length]; lia. }
+  rewrite E, nsum_add. specialize (IH (fun s' Hs' => H s' (or_intror Hs'))).
+  destruct (H s (or_introl eq_refl)) as (x & Hx & Fx).
+  pose proof (nsum_ge_in (fun x => if f x s then 1 else 0) Xs x Hx) as H1. cbv beta in H1. rewrite Fx in H1.
+  cbn [length]. lia.
+Qed.
+
+Lemma length_le1 (c : N) (l : list N) : NoDup l -> (forall s, In s l -> s = c) -> (length l <= 1)%nat.
+Proof.
+  intros Hnd H. destruct l as [|a [|b l]]; cbn [length]; try lia. exfalso.
+  inversion Hnd as [|? ? Hn _]; subst. apply Hn. left.
+  rewrite (H a (or_introl eq_refl)), (H b (or_intror (or_introl eq_refl))). reflexivity.
+Qed.
+
+Section AnyCounts.
+Variables (A B : list N).
+Hypothesis HA : wf_post A.
+Hypothesis HB : wf_post B.
+
+Definition gfun (p : N * N) : N :=
+  if is_same (ipairs A B) then same_term_adjusted (fst p) (snd p) else popcount (ov (fst p) (snd p)).
+Definition gw (x : N) : N := match partner_i B x with Some y => gfun (x, y) | None => 0 end.
+Definition pcw (x : N) : N := match partner_i B x with Some y => popcount (ov x y) | None => 0 end.
+Definition adw (x : N) : N := match sel_a B x with Some _ => 1 | None => 0 end.
+
+Lemma any_counts_look0 : StronglySorted N.lt (map fst (any_counts A B)) /\
+  forall d, look0 d (any_counts A B) = nsum (fun x => if key x =? d then gw x + adw x else 0) A.
+Proof.
+  unfold any_counts. cbn zeta.
+  destruct (merged_counts (runs_sum (gen_kvs (ipairs A B)))
+              (run_counts (np_sort (map (fun p => key (fst p)) (aps A B))))) as [Hs Hl].
+  split; [exact Hs|]. intro d. specialize (Hl d). unfold look0.
+  assert (E : ksum d (runs_sum (gen_kvs (ipairs A B))) +
+              ksum d (run_counts (np_sort (map (fun p => key (fst p)) (aps A B)))) =
+              nsum (fun x => if key x =? d then gw x + adw x else 0) A).
+  { rewrite ksum_runs_sum, run_counts_runs_sum, ksum_runs_sum.
+    rewrite <- (ksum_perm d _ _ (Permutation_map (fun x => (x, 1)) (np_sort_perm _))).
+    rewrite map_map.
+    assert (EG : gen_kvs (ipairs A B) = map (fun p => (key (fst p), gfun p)) (ipairs A B)).
+    { unfold gen_kvs, gfun, same_kvs, inner_kvs. destruct (is_same (ipairs A B)); reflexivity. }
+    rewrite EG. unfold ipairs, lpairs.
+    rewrite (ksum_spairs d _ gfun).
+    rewrite aps_spairs, (ksum_spairs d _ (fun _ => 1)), <- nsum_add.
+    apply nsum_ext_in. intros x Hx. unfold gw, adw, partner_i.
+    destruct (key x =? d); [|reflexivity]. reflexivity. }
+  rewrite <- E. destruct (lookup d _); lia.
+Qed.
+
+Lemma matched_nsum d :
+  N.of_nat (length (matched A B d)) = nsum (fun x => if key x =? d then pcw x + adw x else 0) A.
+Proof.
+  unfold matched. unfold dposns at 2. rewrite filter_flat_map, length_flat_map_nsum, nsum_filter.
+  apply nsum_ext_in. intros x Hx. destruct (N.eqb_spec (key x) d) as [Hk|Hk]; [|reflexivity].
+  rewrite (word_matches A B HA HB x d Hx Hk). reflexivity.
+Qed.
+
+Lemma partner_pair x y : In x A -> partner_i B x = Some y -> In (x, y) (ipairs A B).
+Proof. intros Hx E. unfold ipairs, lpairs. apply In_spairs. split; [exact Hx|exact E]. Qed.
+
+Lemma gw_le x : In x A -> gw x <= pcw x.
+Proof.
+  intro Hx. unfold gw, pcw, gfun. destruct (partner_i B x) as [y|] eqn:E; [|lia]. cbn [fst snd].
+  destruct (is_same (ipairs A B)) eqn:S; [|lia].
+  pose proof (is_same_true _ S _ (partner_pair x y Hx E)) as Exy. cbn [fst snd] in Exy. subst y.
+  destruct (wf_in _ _ HA Hx) as [H64 _]. apply same_term_word. exact H64.
+Qed.
+
+Theorem any_counts_upper d : look0 d (any_counts A B) <= N.of_nat (length (matched A B d)).
+Proof.
+  destruct any_counts_look0 as [_ H]. rewrite H, matched_nsum. apply nsum_le. intros x Hx.
+  destruct (key x =? d); [|lia]. pose proof (gw_le x Hx). lia.
+Qed.
+
+(* a family of starts of pairwise disjoint bigrams (p in A, p+1 in B) of document d *)
+Definition family (d : N) (M : list N) : Prop :=
+  StronglySorted gap2 M /\ forall s, In s M -> has A d s /\ has B d (s + 1).
+
+Lemma word_family x d M : In x A -> key x = d -> family d M ->
+  N.of_nat (length (filter (fun s => mem_n s (wposns x)) M)) <= gw x + adw x.
+Proof.
+  intros HxA Hk [Hg Hf]. destruct (wf_in _ _ HA HxA) as [Hx Hbx].
+  rewrite (filter_split_length (fun s => negb (s mod 18 =? 17))), Nat2N.inj_add.
+  apply N.add_le_mono.
+  - (* in-word members *)
+    set (M1 := filter (fun a => negb (a mod 18 =? 17) && mem_n a (wposns x)) M).
+    assert (HM1 : forall s, In s M1 -> In s M /\ s mod 18 <> 17 /\ In s (wposns x)).
+    { intros s Hs. apply filter_In in Hs. destruct Hs as [Hs Hc]. apply andb_true_iff in Hc.
+      destruct Hc as [H1 H2]. apply negb_true_iff, N.eqb_neq in H1. apply mem_n_In in H2. tauto. }
+    assert (Hpart : forall s, In s M1 -> exists y, partner_i B x = Some y /\ In (s + 1) (wposns y)).
+    { intros s Hs. destruct (HM1 s Hs) as (HsM & H17 & Hsx). destruct (Hf s HsM) as [_ HB1].
+      apply In_wposns in Hsx. destruct Hsx as [Hb _].
+      pose proof (phi_inner A B HA HB x d s HxA Hk Hb H17) as Ephi.
+      apply In_dposns, mem_n_In in HB1. rewrite HB1 in Ephi.
+      destruct (partner_i B x) as [y|]; [|discriminate]. exists y. split; [reflexivity|].
+      apply mem_n_In. symmetry. exact Ephi. }
+    unfold gw. destruct (partner_i B x) as [y|] eqn:E.
+    + assert (Hy : forall s, In s M1 -> In (s + 1) (wposns y)).
+      { intros s Hs. destruct (Hpart s Hs) as (y' & E' & H'). inversion E'; subst y'. exact H'. }
+      pose proof (partner_pair x y HxA E) as Hp.
+      unfold gfun. cbn [fst snd]. destruct (is_same (ipairs A B)) eqn:S.
+      * pose proof (is_same_true _ S _ Hp) as Exy. cbn [fst snd] in Exy. subst y.
+        apply N.le_trans with (GL (wposns x)); [|apply same_term_word; exact Hx].
+        apply GL_optimal; [apply wposns_sorted|apply ss_filter_gen; exact Hg|].
+        intros s Hs. split; [apply (HM1 s Hs)|apply Hy; exact Hs].
+      * assert (Hbk : bucket x = bucket y).
+        { apply partner_i_some in E. destruct E as [HyB Hh]. destruct (wf_in _ _ HB HyB) as [Hy64 _].
+          symmetry. apply (hdr_eq_iff y x Hy64 Hx). exact Hh. }
+        rewrite (inner_popcount x y Hbk).
+        match goal with |- N.of_nat ?a <= N.of_nat ?b => enough (a <= b)%nat by lia end.
+        apply NoDup_incl_length.
+        -- apply NoDup_filter, gap2_nodup. exact Hg.
+        -- intros s Hs. destruct (HM1 s Hs) as (_ & H17 & Hsx). apply filter_In. split; [exact Hsx|].
+           apply andb_true_iff. split; [apply negb_true_iff, N.eqb_neq; exact H17|].
+           apply mem_n_In, Hy. exact Hs.
+    + destruct M1 as [|s M1'] eqn:EM; [cbn [length]; lia|]. exfalso.
+      destruct (Hpart s (or_introl eq_refl)) as (y & E' & _). discriminate.
+  - (* the member at bit 17, if any *)
+    set (M2 := filter (fun a => negb (negb (a mod 18 =? 17)) && mem_n a (wposns x)) M).
+    assert (HM2 : forall s, In s M2 -> In s M /\ s = 18 * bucket x + 17).
+    { intros s Hs. apply filter_In in Hs. destruct Hs as [Hs Hc]. apply andb_true_iff in Hc.
+      destruct Hc as [H1 H2]. rewrite negb_involutive in H1. apply N.eqb_eq in H1. apply mem_n_In in H2.
+      apply In_wposns in H2. destruct H2 as [Hb _]. split; [exact Hs|].
+      pose proof (N.div_mod s 18 ltac:(lia)). lia. }
+    assert (L1 : (length M2 <= 1)%nat).
+    { apply (length_le1 (18 * bucket x + 17)); [apply NoDup_filter, gap2_nodup; exact Hg|].
+      intros s Hs. apply (HM2 s Hs). }
+    destruct M2 as [|s M2'] eqn:EM; [cbn [length]; lia|].
+    destruct (HM2 s (or_introl eq_refl)) as [HsM Es]. destruct (Hf s HsM) as [HA1 HB1].
+    assert (T17 : N.testbit x 17 = true).
+    { assert (Hin : In s (wposns x)).
+      { assert (Hs : In s (filter (fun a => negb (negb (a mod 18 =? 17)) && mem_n a (wposns x)) M))
+          by (fold M2; rewrite EM; now left).
+        apply filter_In in Hs. destruct Hs as [_ Hc]. apply andb_true_iff in Hc. apply mem_n_In. tauto. }
+      apply In_wposns in Hin. destruct Hin as [_ Ht]. replace (s mod 18) with 17 in Ht by lia. exact Ht. }
+    pose proof (phi_adj A B HA HB x d HxA Hk) as Ephi.
+    apply In_dposns, mem_n_In in HB1. rewrite Es in HB1. rewrite HB1 in Ephi.
+    unfold adw, sel_a. destruct (partner_a B x) as [y|]; [|discriminate].
+    rewrite adjtest_bits. cbn [fst snd]. rewrite T17, <- Ephi. cbn [andb]. cbn [length] in *. lia.
+Qed.
+
+Theorem any_counts_lower d M : family d M -> N.of_nat (length M) <= look0 d (any_counts A B).
+Proof.
+  intro HF. destruct any_counts_look0 as [_ H]. rewrite H.
+  apply N.le_trans with
+    (nsum (fun x => N.of_nat (length (filter (fun s => (key x =? d) && mem_n s (wposns x)) M))) A).
+  - apply cover_count. intros s Hs. destruct HF as [_ Hf]. destruct (Hf s Hs) as [(w & Hw & Hk & Hb & Ht) _].
+    exists w. split; [exact Hw|]. apply andb_true_iff. split; [apply N.eqb_eq; exact Hk|].
+    apply mem_n_In, In_wposns. split; [symmetry; exact Hb|exact Ht].
+  - apply nsum_le. intros x Hx. destruct (N.eqb_spec (key x) d) as [Hk|Hk].
+    + cbn [andb]. apply (word_family x d M); assumption.
+    + cbn [andb]. rewrite filter_false. cbn [length]. lia.
+Qed.
+
+Lemma any_counts_keys k : In k (map fst (any_counts A B)) -> k < 268435456 /\ exists w, In w A /\ key w = k.
+Proof.
+  unfold any_counts, sort_merge_counts_spec. cbn zeta. rewrite !Phrase_Proofs2.combine_fst_snd. intro H.
+  apply runs_sum_keys_in in H.
+  apply (Permutation_in _ (Permutation_sym (Permutation_map fst (fold_insert_kv_perm _)))) in H.
+  rewrite map_app, in_app_iff in H. destruct H as [H|H].
+  - apply runs_sum_keys_in in H. rewrite gen_kvs_keys in H.
+    apply in_map_iff in H. destruct H as (p & <- & Hp). apply (ipairs_wf A B HA HB) in Hp.
+    split; [apply key_lt; tauto|exists (fst p); tauto].
+  - rewrite run_counts_runs_sum in H. apply runs_sum_keys_in in H. rewrite map_map in H. cbn [fst] in H.
+    rewrite map_id in H. apply (Permutation_in _ (Permutation_sym (np_sort_perm _))) in H.
+    apply in_map_iff in H. destruct H as (p & <- & Hp). apply (aps_wf A B HA HB) in Hp.
+    split; [apply key_lt; tauto|exists (fst p); tauto].
+Qed.
+End AnyCounts.
+
+(* one bigram step on ANY two well-formed posting lists (same term or not): the call succeeds; the
+   continuation is the ordinary one (END / START positions of all matched bigrams); the reported count of
+   a document (0 when unlisted) lies between the size of any family of pairwise disjoint matches and the
+   number of all matches *)
+Theorem bigram_step_any : forall c A B, wf_post A -> wf_post B ->
+  N.of_nat (length A) < 2 ^ 62 -> N.of_nat (length B) < 2 ^ 62 ->
+  exists counts next, bigram_freqs c A B = AOk (counts, next) /\
+    wf_post next /\
+    (forall d, dposns next d = map (fun p => p + off c) (matched A B d)) /\
+    StronglySorted N.lt (map fst counts) /\
+    (forall d, look0 d counts <= N.of_nat (length (matched A B d))) /\
+    (forall d M, family A B d M -> N.of_nat (length M) <= look0 d counts).
+Proof.
+  intros c A B HA HB HlA HlB. exists (any_counts A B), (step_next c A B).
+  split; [apply bigram_freqs_any; assumption|].
+  split; [apply step_next_wf; assumption|].
+  split; [intro d; apply step_next_dposns; assumption|].
+  split; [apply any_counts_look0; assumption|].
+  split; [intro d; apply any_counts_upper; assumption|].
+  intros d M. apply any_counts_lower; assumption.
+Qed.
+
+(* ------------------------------------------------------------------ *)
+(* 6. the running minimum                                              *)
+(* ------------------------------------------------------------------ *)
+Definition acc_ok (cs : list (N * N)) : Prop :=
+  StronglySorted N.lt (map fst cs) /\ Forall (fun kv => fst kv < 268435456) cs.
+
+Lemma acc_ok_length cs : acc_ok cs -> N.of_nat (length cs) < 2 ^ 62.
+Proof.
+  intros (Hs & Hf). rewrite <- (map_length fst cs).
+  destruct (sorted_length_bound (map fst cs) 0 268435456 Hs) as [H| ->].
+  - apply Forall_map. eapply Forall_impl; [|exact Hf]. cbn. intros; lia.
+  - rewrite pow62. lia.
+  - rewrite pow62. cbn. lia.
+Qed.
+
+Lemma any_counts_acc_ok A B : wf_post A -> wf_post B -> acc_ok (any_counts A B).
+Proof.
+  intros HA HB. split; [apply any_counts_look0; assumption|].
+  apply Forall_forall. intros kv Hkv. apply (any_counts_keys A B HA HB). apply in_map. exact Hkv.
+Qed.
+
+Lemma intersect_acc old new : acc_ok old -> acc_ok new ->
+  exists acc', intersect_matches (Some old) new = AOk acc' /\ acc_ok acc' /\
+    incl (map fst acc') (map fst old) /\
+    forall d, look0 d acc' = N.min (look0 d old) (look0 d new).
+Proof.
+  intros Ho Hn. pose proof (acc_ok_length _ Ho) as Lo. pose proof (acc_ok_length _ Hn) as Ln.
+  destruct Ho as (So & Fo). destruct Hn as (Sn & Fn).
+  exists (map min_pair (kpairs old new)). split; [apply intersect_matches_spec; assumption|].
+  split; [split|split].
+  - rewrite map_map. cbn [min_pair fst]. apply (ss_spairs _ fst). exact So.
+  - apply Forall_map, Forall_forall. intros [x y] Hp. apply In_spairs in Hp. destruct Hp as [Hx _].
+    cbn [min_pair fst]. rewrite Forall_forall in Fo. apply (Fo x Hx).
+  - intros k Hk. apply kpairs_keys in Hk. exact Hk.
+  - intro d. unfold look0. rewrite lookup_kpairs by exact So.
+    destruct (lookup d old) as [a|], (lookup d new) as [b|]; lia.
+Qed.
+
+(* ------------------------------------------------------------------ *)
+(* 7. left to right                                                    *)
+(* ------------------------------------------------------------------ *)
+Lemma l2r_loop_any : forall rest lhs acc,
+  wf_post lhs -> N.of_nat (length lhs) < 2 ^ 62 -> Forall canonical rest -> acc_ok acc ->
+  (forall d, look0 d acc <= N.of_nat (length (dposns lhs d))) ->
+  exists res, l2r_loop lhs rest (Some acc) = AOk res /\ acc_ok res /\
+    incl (map fst res) (map fst acc) /\
+    forall d, look0 d res <= N.of_nat (length (l2r_pos (dposns lhs d) rest d)) /\
+      forall M, StronglySorted gap2 M ->
+        (forall p, In p M -> In p (dposns lhs d) /\ match_at rest d (p + 1) = true) ->
+        N.of_nat (length M) <= look0 d acc -> N.of_nat (length M) <= look0 d res.
+Proof.
+  induction rest as [|P more IH]; intros lhs acc Hwf Hlen Hcan Hok Hub.
+  - exists acc. split; [reflexivity|]. split; [exact Hok|]. split; [apply incl_refl|].
+    intro d. split; [apply Hub|]. intros M _ _ H. exact H.
+  - inversion Hcan as [|? ? (HwP & HnzP & HlP) Hcan']; subst.
+    cbn [l2r_loop]. rewrite (bigram_freqs_any CR lhs P Hwf HwP Hlen HlP). cbn [abind fst snd].
+    destruct (intersect_acc acc (any_counts lhs P) Hok (any_counts_acc_ok lhs P Hwf HwP))
+      as (acc' & E & Hok' & Hincl & Hmin).
+    rewrite E. cbn [abind].
+    destruct (IH (step_next CR lhs P) acc') as (res & Er & Hres & Hincl' & Hd); try assumption.
+    + apply step_next_wf; assumption.
+    + pose proof (step_next_length CR lhs P Hwf HwP) as Hl. cbn [side] in Hl. rewrite pow62 in *. lia.
+    + intro d. rewrite Hmin. rewrite step_next_dposns, map_length by assumption.
+      pose proof (any_counts_upper lhs P Hwf HwP d). lia.
+    + exists res. split; [exact Er|]. split; [exact Hres|].
+      split; [eapply incl_tran; eassumption|]. intro d. destruct (Hd d) as [Hu Hlow]. split.
+      * cbn [l2r_pos]. rewrite step_CR_dposns in Hu by assumption. exact Hu.
+      * intros M HM HMin Hacc.
+        assert (HF : family lhs P d M).
+        { split; [exact HM|]. intros s Hs. destruct (HMin s Hs) as [H1 H2]. cbn [match_at] in H2.
+          apply andb_true_iff in H2. destruct H2 as [H2 _]. apply mem_n_In in H2.
+          split; apply In_dposns; assumption. }
+        pose proof (any_counts_lower lhs P Hwf HwP d M HF) as Hc.
+        rewrite <- (map_length (fun p => p + 1) M). apply Hlow.
+        -- apply (ss_map_gen gap2 gap2); [unfold gap2; intros; lia|exact HM].
+        -- intros q Hq. apply in_map_iff in Hq. destruct Hq as (p & <- & Hp).
+           destruct (HMin p Hp) as [H1 H2]. cbn [match_at] in H2. apply andb_true_iff in H2.
+           destruct H2 as [H2 H3]. split; [|exact H3].
+           rewrite step_CR_dposns by assumption. apply (in_map (fun p => p + 1)). apply filter_In. split; assumption.
+        -- rewrite map_length, Hmin. lia.
+Qed.
+
+Definition answer_bounds (res : list (N * N)) (Ps : list (list N)) : Prop :=
+  forall d, look0 d res <= N.of_nat (length (phrase_matches Ps d)) /\
+    forall O, StronglySorted gap2 O -> (forall o, In o O -> match_at Ps d o = true) ->
+      N.of_nat (length O) <= look0 d res.
+
+Theorem phrase_l2r_any : forall P1 P2 more, Forall canonical (P1 :: P2 :: more) ->
+  exists res, phrase_l2r (P1 :: P2 :: more) = AOk res /\ acc_ok res /\ keys_from res P1 /\
+    answer_bounds res (P1 :: P2 :: more).
+Proof.
+  intros P1 P2 more Hcan.
+  inversion Hcan as [|? ? (Hw1 & Hnz1 & Hl1) Hcan1]; subst.
+  inversion Hcan1 as [|? ? (Hw2 & Hnz2 & Hl2) Hcan2]; subst.
+  cbn [phrase_l2r l2r_loop]. rewrite (bigram_freqs_any CR P1 P2 Hw1 Hw2 Hl1 Hl2).
+  cbn [abind fst snd intersect_matches].
+  destruct (l2r_loop_any more (step_next CR P1 P2) (any_counts P1 P2)) as (res & Er & Hres & Hincl & Hd);
+    try assumption.
+  - apply step_next_wf; assumption.
+  - pose proof (step_next_length CR P1 P2 Hw1 Hw2) as Hl. cbn [side] in Hl. rewrite pow62 in *. lia.
+  - apply any_counts_acc_ok; assumption.
+  - intro d. rewrite step_next_dposns, map_length by assumption. apply any_counts_upper; assumption.
+  - exists res. split; [exact Er|]. split; [exact Hres|]. split.
+    + intros k Hk. apply Hincl in Hk. apply (any_counts_keys P1 P2 Hw1 Hw2) in Hk. tauto.
+    + intro d. destruct (Hd d) as [Hu Hlow]. split.
+      * assert (E : length (l2r_pos (dposns (step_next CR P1 P2) d) more d) =
+                    length (phrase_matches (P1 :: P2 :: more) d)).
+        { rewrite step_CR_dposns by assumption.
+          change (l2r_pos (map (fun q => q + 1) (filter (fun p => mem_n (p + 1) (dposns P2 d)) (dposns P1 d))) more d)
+            with (l2r_pos (dposns P1 d) (P2 :: more) d).
+          rewrite l2r_pos_spec, map_length, pm_head. reflexivity. }
+        rewrite <- E. exact Hu.
+      * intros O HO HOin.
+        assert (HF : family P1 P2 d O).
+        { split; [exact HO|]. intros s Hs. specialize (HOin s Hs). cbn [match_at] in HOin.
+          apply andb_true_iff in HOin. destruct HOin as [H1 H2]. apply andb_true_iff in H2. destruct H2 as [H2 _].
+          apply mem_n_In in H1. apply mem_n_In in H2. split; apply In_dposns; assumption. }
+        pose proof (any_counts_lower P1 P2 Hw1 Hw2 d O HF) as Hc.
+        rewrite <- (map_length (fun p => p + 1) O). apply Hlow.
+        -- apply (ss_map_gen gap2 gap2); [unfold gap2; intros; lia|exact HO].
+        -- intros q Hq. apply in_map_iff in Hq. destruct Hq as (p & <- & Hp).
+           specialize (HOin p Hp). cbn [match_at] in HOin.
+           apply andb_true_iff in HOin. destruct HOin as [H1 H2]. apply andb_true_iff in H2. destruct H2 as [H2 H3].
+           split; [|exact H3]. rewrite step_CR_dposns by assumption. apply (in_map (fun p => p + 1)). apply filter_In.
+           split; [apply mem_n_In; exact H1|exact H2].
+        -- rewrite map_length. exact Hc.
+Qed.
+
+(* ------------------------------------------------------------------ *)
+(* 8. right to left                                                    *)
+(* ------------------------------------------------------------------ *)
+Fixpoint match_back (rest : list (list N)) (d q : N) : bool :=
+  match rest with
+  | [] => true
+  | P :: more => (0 <? q) && mem_n (q - 1) (dposns P d) && match_back more d (q - 1)
+  end.
+
+Lemma gap2_pred M : StronglySorted gap2 M -> Forall (fun q => 0 < q) M ->
+  StronglySorted gap2 (map (fun q => q - 1) M).
+Proof.
+  induction 1 as [|a t Hs IH Hf]; intro Hp; cbn [map]; [constructor|].
+  inversion Hp as [|? ? Ha Hp']; subst. constructor; [apply IH; exact Hp'|].
+  apply Forall_map. rewrite Forall_forall in *. intros b Hb. specialize (Hf b Hb). specialize (Hp' b Hb).
+  unfold gap2 in *. lia.
+Qed.
+
+Lemma r2l_loop_any : forall rest rhs acc,
+  wf_post rhs -> N.of_nat (length rhs) < 2 ^ 62 -> Forall canonical rest -> acc_ok acc ->
+  (forall d, look0 d acc <= N.of_nat (length (dposns rhs d))) ->
+  exists res, r2l_loop rhs rest (Some acc) = AOk res /\ acc_ok res /\
+    incl (map fst res) (map fst acc) /\
+    forall d, look0 d res <= N.of_nat (length (r2l_pos (dposns rhs d) rest d)) /\
+      forall M, StronglySorted gap2 M ->
+        (forall q, In q M -> In q (dposns rhs d) /\ match_back rest d q = true) ->
+        N.of_nat (length M) <= look0 d acc -> N.of_nat (length M) <= look0 d res.
+Proof.
+  induction rest as [|P more IH]; intros rhs acc Hwf Hlen Hcan Hok Hub.
+  - exists acc. split; [reflexivity|]. split; [exact Hok|]. split; [apply incl_refl|].
+    intro d. split; [apply Hub|]. intros M _ _ H. exact H.
+  - inversion Hcan as [|? ? (HwP & HnzP & HlP) Hcan']; subst.
+    cbn [r2l_loop]. rewrite (bigram_freqs_any CL P rhs HwP Hwf HlP Hlen). cbn [abind fst snd].
+    destruct (intersect_acc acc (any_counts P rhs) Hok (any_counts_acc_ok P rhs HwP Hwf))
+      as (acc' & E & Hok' & Hincl & Hmin).
+    rewrite E. cbn [abind].
+    destruct (IH (step_next CL P rhs) acc') as (res & Er & Hres & Hincl' & Hd); try assumption.
+    + apply step_next_wf; assumption.
+    + pose proof (step_next_length CL P rhs HwP Hwf) as Hl. cbn [side] in Hl. rewrite pow62 in *. lia.
+    + intro d. rewrite Hmin. rewrite step_next_dposns, map_length by assumption.
+      pose proof (any_counts_upper P rhs HwP Hwf d). lia.
+    + exists res. split; [exact Er|]. split; [exact Hres|].
+      split; [eapply incl_tran; eassumption|]. intro d. destruct (Hd d) as [Hu Hlow]. split.
+      * cbn [r2l_pos]. rewrite step_CL_dposns in Hu by assumption. exact Hu.
+      * intros M HM HMin Hacc.
+        assert (Hpos : Forall (fun q => 0 < q) M).
+        { apply Forall_forall. intros q Hq. destruct (HMin q Hq) as [_ H2]. cbn [match_back] in H2.
+          apply andb_true_iff in H2. destruct H2 as [H2 _]. apply andb_true_iff in H2. destruct H2 as [H2 _].
+          apply N.ltb_lt. exact H2. }
+        set (M' := map (fun q => q - 1) M).
+        assert (HM' : StronglySorted gap2 M') by (apply gap2_pred; assumption).
+        assert (HF : family P rhs d M').
+        { split; [exact HM'|]. intros s Hs. apply in_map_iff in Hs. destruct Hs as (q & <- & Hq).
+          destruct (HMin q Hq) as [H1 H2]. cbn [match_back] in H2.
+          apply andb_true_iff in H2. destruct H2 as [H2 _]. apply andb_true_iff in H2. destruct H2 as [H0 H2].
+          apply N.ltb_lt in H0. apply mem_n_In in H2. replace (q - 1 + 1) with q by lia.
+          split; apply In_dposns; assumption. }
+        pose proof (any_counts_lower P rhs HwP Hwf d M' HF) as Hc.
+        rewrite <- (map_length (fun q => q - 1) M). fold M'. apply Hlow.
+        -- exact HM'.
+        -- intros s Hs. apply in_map_iff in Hs. destruct Hs as (q & <- & Hq).
+           destruct (HMin q Hq) as [H1 H2]. cbn [match_back] in H2.
+           apply andb_true_iff in H2. destruct H2 as [H2 H3]. apply andb_true_iff in H2. destruct H2 as [H0 H2].
+           apply N.ltb_lt in H0. split; [|exact H3].
+           rewrite step_CL_dposns by assumption. apply filter_In. split; [apply mem_n_In; exact H2|].
+           replace (q - 1 + 1) with q by lia. apply mem_n_In. exact H1.
+        -- subst M'. rewrite map_length in Hc |- *. rewrite Hmin. lia.
+Qed.
+
+Lemma match_at_app d : forall l1 l2 o,
+  match_at (l1 ++ l2) d o = match_at l1 d o && match_at l2 d (o + N.of_nat (length l1)).
+Proof.
+  induction l1 as [|P l1 IH]; intros l2 o.
+  - cbn [app match_at length N.of_nat]. rewrite N.add_0_r. reflexivity.
+  - cbn [app match_at]. rewrite IH, andb_assoc. f_equal. f_equal. cbn [length]. lia.
+Qed.
+
+Lemma match_back_rev d : forall rest q,
+  match_back rest d q = (N.of_nat (length rest) <=? q) && match_at (rev rest) d (q - N.of_nat (length rest)).
+Proof.
+  induction rest as [|P more IH]; intro q.
+  - cbn [match_back length rev match_at N.of_nat]. destruct (N.leb_spec 0 q); [reflexivity|lia].
+  - cbn [match_back rev]. rewrite IH, match_at_app, rev_length. cbn [match_at length].
+    rewrite andb_true_r.
+    destruct (N.ltb_spec 0 q) as [H0|H0]; cbn [andb].
+    + destruct (N.leb_spec (N.of_nat (length more)) (q - 1)) as [H1|H1];
+        destruct (N.leb_spec (N.of_nat (S (length more))) q) as [H2|H2]; try lia; cbn [andb].
+      replace (q - N.of_nat (S (length more)) + N.of_nat (length more)) with (q - 1) by lia.
+      replace (q - 1 - N.of_nat (length more)) with (q - N.of_nat (S (length more))) by lia.
+      destruct (mem_n (q - 1) (dposns P d)), (match_at (rev more) d (q - N.of_nat (S (length more)))); reflexivity.
+    + destruct (N.leb_spec (N.of_nat (S (length more))) q) as [H2|H2]; [lia|reflexivity].
+Qed.
+
+(* right-to-left: stated on the reversed list as the model does *)
+Theorem phrase_r2l_any : forall Pn Pm front, Forall canonical (Pn :: Pm :: front) ->
+  exists res, phrase_r2l (rev (Pn :: Pm :: front)) = AOk res /\ acc_ok res /\ keys_from res Pm /\
+    answer_bounds res (rev (Pn :: Pm :: front)).
+Proof.
+  intros Pn Pm front Hcan. unfold phrase_r2l. rewrite rev_involutive.
+  inversion Hcan as [|? ? (Hwn & Hnzn & Hln) Hcan1]; subst.
+  inversion Hcan1 as [|? ? (Hwm & Hnzm & Hlm) Hcan2]; subst.
+  cbn [r2l_loop]. rewrite (bigram_freqs_any CL Pm Pn Hwm Hwn Hlm Hln).
+  cbn [abind fst snd intersect_matches].
+  destruct (r2l_loop_any front (step_next CL Pm Pn) (any_counts Pm Pn)) as (res & Er & Hres & Hincl & Hd);
+    try assumption.
+  - apply step_next_wf; assumption.
+  - pose proof (step_next_length CL Pm Pn Hwm Hwn) as Hl. cbn [side] in Hl. rewrite pow62 in *. lia.
+  - apply any_counts_acc_ok; assumption.
+  - intro d. rewrite step_next_dposns, map_length by assumption. apply any_counts_upper; assumption.
+  - exists res. split; [exact Er|]. split; [exact Hres|]. split.
+    + intros k Hk. apply Hincl in Hk. apply (any_counts_keys Pm Pn Hwm Hwn) in Hk. tauto.
+    + intro d. destruct (Hd d) as [Hu Hlow]. split.
+      * assert (E : r2l_pos (dposns (step_next CL Pm Pn) d) front d = phrase_matches (rev (Pn :: Pm :: front)) d).
+        { rewrite step_CL_dposns by assumption.
+          change (r2l_pos (filter (fun p => mem_n (p + 1) (dposns Pn d)) (dposns Pm d)) front d)
+            with (r2l_pos (dposns Pn d) (Pm :: front) d).
+          rewrite <- pm_single. change (rev (Pn :: Pm :: front)) with (rev (Pm :: front) ++ [Pn]).
+          set (F := rev (Pm :: front)).
+          assert (EF : Pm :: front = rev F) by (unfold F; symmetry; apply rev_involutive).
+          rewrite EF. apply r2l_pos_spec. discriminate. }
+        rewrite <- E. exact Hu.
+      * intros O HO HOin.
+        (* the position of the Pm term of each occurrence *)
+        set (n := N.of_nat (length front)).
+        assert (HOx : forall o, In o O -> match_at (rev front) d o = true /\
+                        mem_n (o + n) (dposns Pm d) = true /\ mem_n (o + n + 1) (dposns Pn d) = true).
+        { intros o Ho. specialize (HOin o Ho). cbn [rev] in HOin. rewrite <- app_assoc in HOin. cbn [app] in HOin.
+          rewrite match_at_app, rev_length in HOin. fold n in HOin. cbn [match_at] in HOin.
+          apply andb_true_iff in HOin. destruct HOin as [H1 H2]. apply andb_true_iff in H2. destruct H2 as [H2 H3].
+          apply andb_true_iff in H3. destruct H3 as [H3 _]. auto. }
+        set (M := map (fun o => o + n) O).
+        assert (HM : StronglySorted gap2 M)
+          by (apply (ss_map_gen gap2 gap2); [unfold gap2; intros; lia|exact HO]).
+        assert (HF : family Pm Pn d M).
+        { split; [exact HM|]. intros s Hs. apply in_map_iff in Hs. destruct Hs as (o & <- & Ho).
+          destruct (HOx o Ho) as (_ & H2 & H3). apply mem_n_In in H2. apply mem_n_In in H3.
+          split; apply In_dposns; assumption. }
+        pose proof (any_counts_lower Pm Pn Hwm Hwn d M HF) as Hc.
+        rewrite <- (map_length (fun o => o + n) O). fold M. apply Hlow.
+        -- exact HM.
+        -- intros s Hs. apply in_map_iff in Hs. destruct Hs as (o & <- & Ho).
+           destruct (HOx o Ho) as (H1 & H2 & H3). split.
+           ++ rewrite step_CL_dposns by assumption. apply filter_In. split; [apply mem_n_In; exact H2|exact H3].
+           ++ rewrite match_back_rev. fold n. replace (o + n - n) with o by lia. rewrite H1.
+              destruct (N.leb_spec n (o + n)); [reflexivity|lia].
+        -- exact Hc.
+Qed.
+
+(* ------------------------------------------------------------------ *)
+(* 9. either strategy                                                  *)
+(* ------------------------------------------------------------------ *)
+Theorem compute_phrase_freqs_bounds : forall Ps, (2 <= length Ps)%nat -> Forall canonical Ps ->
+  exists res, compute_phrase_freqs Ps = AOk res /\ acc_ok res /\
+    (forall k, In k (map fst res) -> exists P w, In P Ps /\ In w P /\ key w = k) /\
+    answer_bounds res Ps.
+Proof.
+  intros Ps Hlen Hcan. unfold compute_phrase_freqs. destruct (choose_strategy Ps).
+  - destruct Ps as [|P1 [|P2 more]]; cbn [length] in Hlen; try lia.
+    destruct (phrase_l2r_any P1 P2 more Hcan) as (res & E & Hok & Hk & Hb).
+    exists res. split; [exact E|]. split; [exact Hok|]. split; [|exact Hb].
+    intros k Hin. destruct (Hk k Hin) as (w & Hw & Ek). exists P1, w. split; [now left|]. tauto.
+  - pose proof (rev_involutive Ps) as E. pose proof (rev_length Ps) as L.
+    pose proof (Forall_rev Hcan) as Hcan'.
+    destruct (rev Ps) as [|Pn [|Pm front]] eqn:ER; cbn [length] in L; try lia.
+    rewrite <- E.
+    destruct (phrase_r2l_any Pn Pm front Hcan') as (res & Er & Hok & Hk & Hb).
+    exists res. split; [exact Er|]. split; [exact Hok|]. split; [|exact Hb].
+    intros k Hin. destruct (Hk k Hin) as (w & Hw & Ek). exists Pm, w. split; [|tauto].
+    apply -> in_rev. right. now left.
+Qed.
+
+(* ------------------------------------------------------------------ *)
+(* 10. the spec side: greedy non-overlapping occurrences               *)
+(* ------------------------------------------------------------------ *)
+(* the number of non-overlapping occurrences found greedily from the left (Phrase_Spec.occ_nonoverlap) *)
+Definition nonoverlapping (ph d : list N) : N := occ_nonoverlap ph d.
+
+(* the offsets the greedy scan takes *)
+Fixpoint nonover_offs (fuel : nat) (ph d : list N) (i : N) : list N :=
+  match fuel with
+  | O => []
+  | S f => match d with
+           | [] => []
+           | _ :: t => if prefix_eqb ph d
+                       then i :: nonover_offs f ph (skipn (length ph) d) (i + N.of_nat (length ph))
+                       else nonover_offs f ph t (i + 1)
+           end
+  end.
+
+Lemma nonover_offs_length ph : forall fuel d i,
+  N.of_nat (length (nonover_offs fuel ph d i)) = occ_nonoverlap_aux fuel ph d.
+Proof.
+  induction fuel as [|f IH]; intros d i; [reflexivity|]. cbn [nonover_offs occ_nonoverlap_aux].
+  destruct d as [|x t]; [reflexivity|]. destruct (prefix_eqb ph (x :: t)).
+  - cbn [length]. rewrite Nat2N.inj_succ, IH. lia.
+  - apply IH.
+Qed.
+
+Lemma skipn_add {X} : forall b a (l : list X), skipn a (skipn b l) = skipn (a + b) l.
+Proof.
+  induction b as [|b IH]; intros a l; [rewrite Nat.add_0_r; reflexivity|].
+  rewrite Nat.add_succ_r. destruct l as [|x t]; [destruct a; reflexivity|]. cbn [skipn]. apply IH.
+Qed.
+
+Lemma nonover_offs_spec ph : (2 <= length ph)%nat -> forall fuel d i,
+  StronglySorted gap2 (nonover_offs fuel ph d i) /\
+  forall o, In o (nonover_offs fuel ph d i) -> i <= o /\ prefix_eqb ph (skipn (N.to_nat (o - i)) d) = true.
+Proof.
+  intro Hlen. induction fuel as [|f IH]; intros d i; [split; [constructor|intros o []]|].
+  cbn [nonover_offs]. destruct d as [|x t]; [split; [constructor|intros o []]|].
+  destruct (prefix_eqb ph (x :: t)) eqn:E.
+  - destruct (IH (skipn (length ph) (x :: t)) (i + N.of_nat (length ph))) as [Hs Hin]. split.
+    + constructor; [exact Hs|]. apply Forall_forall. intros o Ho. destruct (Hin o Ho) as [Hle _].
+      unfold gap2. lia.
+    + intros o [<-|Ho].
+      * split; [lia|]. replace (i - i) with 0 by lia. exact E.
+      * destruct (Hin o Ho) as [Hle Hp]. split; [lia|].
+        rewrite skipn_add in Hp.
+        replace (N.to_nat (o - i)) with (N.to_nat (o - (i + N.of_nat (length ph))) + length ph)%nat by lia.
+        exact Hp.
+  - destruct (IH t (i + 1)) as [Hs Hin]. split; [exact Hs|].
+    intros o Ho. destruct (Hin o Ho) as [Hle Hp]. split; [lia|].
+    replace (N.to_nat (o - i)) with (S (N.to_nat (o - (i + 1)))) by lia. exact Hp.
+Qed.
+
+Lemma occ_pos_nonoverlap_pos ph : forall d fuel, (length d < fuel)%nat -> occ ph d > 0 ->
+  occ_nonoverlap_aux fuel ph d > 0.
+Proof.
+  induction d as [|x t IH]; intros fuel Hf H; [cbn [occ] in H; lia|].
+  destruct fuel as [|f]; [lia|]. cbn [occ_nonoverlap_aux]. cbn [occ] in H.
+  destruct (prefix_eqb ph (x :: t)); [lia|]. apply IH; [cbn [length] in Hf; lia|lia].
+Qed.
+
+Lemma occ_skipn ph : forall n d, occ ph (skipn n d) <= occ ph d.
+Proof.
+  induction n as [|n IH]; intro d; [cbn [skipn]; lia|]. destruct d as [|x t]; [cbn; lia|].
+  cbn [skipn occ]. specialize (IH t). destruct (prefix_eqb ph (x :: t)); lia.
+Qed.
+
+Lemma nonoverlap_le_occ ph : ph <> [] -> forall fuel d, occ_nonoverlap_aux fuel ph d <= occ ph d.
+Proof.
+  intro Hne. induction fuel as [|f IH]; intro d; [cbn; lia|]. cbn [occ_nonoverlap_aux].
+  destruct d as [|x t]; [cbn; lia|]. cbn [occ]. destruct (prefix_eqb ph (x :: t)).
+  - destruct ph as [|a ph']; [congruence|]. cbn [length skipn].
+    pose proof (IH (skipn (length ph') t)). pose proof (occ_skipn (a :: ph') (length ph') t). lia.
+  - specialize (IH t). lia.
+Qed.
+
+(* ------------------------------------------------------------------ *)
+(* 11. on the index of a corpus                                        *)
+(* ------------------------------------------------------------------ *)
+Definition in_bounds (ph doc : list N) (v : N) : Prop :=
+  (v > 0 <-> occ ph doc > 0) /\ nonoverlapping ph doc <= v <= occ ph doc.
+
+Lemma bounds_of_interval ph doc v : ph <> [] ->
+  nonoverlapping ph doc <= v -> v <= occ ph doc -> in_bounds ph doc v.
+Proof.
+  intros Hne H1 H2. split; [|split; assumption]. split; [lia|]. intro Hp.
+  pose proof (occ_pos_nonoverlap_pos ph doc (S (length doc)) ltac:(lia) Hp) as H.
+  unfold nonoverlapping, occ_nonoverlap in H1. lia.
+Qed.
+
+Theorem phrase_repeats_on_index docs ix ph : wf_docs docs -> index_ok docs ix -> (2 <= length ph)%nat ->
+  exists res, phrase_freqs ix ph = AOk res /\ length res = length docs /\
+    forall d, (d < length docs)%nat -> in_bounds ph (nth d docs []) (nth d res 0).
+Proof.
+  intros Hwf Hok Hlen.
+  assert (Hne : ph <> []) by (intro; subst; cbn [length] in Hlen; lia).
+  destruct (forallb (known ix) ph) eqn:K.
+  - pose proof Hok as (Hp & Ha & Ht & Hl).
+    assert (HL : length (ix_lens ix) = length docs) by (rewrite Hl; apply map_length).
+    assert (Hall : forall t, In t ph -> In t (concat docs)).
+    { intros t Hin. rewrite forallb_forall in K. apply (known_iff docs ix t Ht). apply K. exact Hin. }
+    unfold phrase_freqs. rewrite K, HL. cbn [negb].
+    destruct (Nat.ltb_spec (length ph) 2) as [Hlt|_]; [lia|].
+    rewrite (get_all_posts_ok docs ix Hok ph Hall). cbn [abind].
+    set (pss := map (term_pairs docs) ph).
+    assert (Hg : Forall good_term pss).
+    { apply Forall_map. apply Forall_forall. intros t _. apply term_pairs_good. exact Hwf. }
+    assert (Hlen' : (2 <= length (map encode_spec pss))%nat) by (unfold pss; rewrite !map_length; exact Hlen).
+    assert (Hcan : Forall canonical (map encode_spec pss)).
+    { apply Forall_map. eapply Forall_impl; [|exact Hg]. intros ps (S1 & B1 & M1 & L1).
+      apply encode_spec_canonical; assumption. }
+    destruct (compute_phrase_freqs_bounds (map encode_spec pss) Hlen' Hcan) as (res & E & [Hs Hf28] & Hkeys & Hb).
+    rewrite E. cbn [abind].
+    assert (Hkb : Forall (fun iv => fst iv < N.of_nat (length docs)) res).
+    { apply Forall_forall. intros iv Hiv.
+      destruct (Hkeys (fst iv) (in_map fst _ _ Hiv)) as (P & w & HP & Hw & Ek).
+      apply in_map_iff in HP. destruct HP as (ps & <- & Hps). unfold pss in Hps.
+      apply in_map_iff in Hps. destruct Hps as (t & <- & _).
+      destruct (tp_wf docs Hwf t) as [S B]. rewrite term_pairs_tp in Hw.
+      destruct (encode_word_pair _ w S B Hw) as (p & Hin).
+      pose proof (tp_keys t docs 0) as TK. rewrite Forall_forall in TK. specialize (TK _ Hin).
+      cbn [fst] in TK. rewrite <- Ek. lia. }
+    destruct (store_zeros res (length docs) (ss_lt_nodup' _ Hs) Hkb) as (d' & Es & Ld & Hn).
+    rewrite Es. cbn [lift]. exists d'. split; [reflexivity|]. split; [exact Ld|].
+    intros k Hk. rewrite (Hn k Hk). fold (look0 (N.of_nat k) res).
+    set (doc := nth k docs []). destruct (Hb (N.of_nat k)) as [Hup Hlow].
+    assert (HF : Forall2 (fun t P => dposns P (N.of_nat k) = offsets t doc) ph (map encode_spec pss)).
+    { pose proof (forall2_offsets docs k ph) as HF0. fold pss in HF0. fold doc in HF0.
+      clear - HF0 Hg. induction HF0 as [|t ps ph' pss' Ht _ IH]; [constructor|].
+      inversion Hg as [|? ? (S1 & B1 & _) Hg']; subst. cbn [map]. constructor; [|apply IH; exact Hg'].
+      rewrite encode_spec_dposns by assumption. exact Ht. }
+    apply bounds_of_interval; [exact Hne| |].
+    + (* the greedy offsets are a family of pairwise disjoint occurrences *)
+      destruct (nonover_offs_spec ph Hlen (S (length doc)) doc 0) as [Hs2 Hin].
+      unfold nonoverlapping, occ_nonoverlap. rewrite <- (nonover_offs_length ph _ doc 0).
+      apply Hlow; [exact Hs2|]. intros o Ho. destruct (Hin o Ho) as [_ Hpre]. rewrite N.sub_0_r in Hpre.
+      rewrite (match_at_prefix (N.of_nat k) doc ph _ HF). exact Hpre.
+    + rewrite <- (phrase_matches_occ ph _ (N.of_nat k) doc Hne HF). exact Hup.
+  - destruct (forallb_false _ _ K) as (t & Hin & Hk).
+    assert (Hnot : ~ In t (concat docs)).
+    { intro Hc. destruct Hok as (_ & _ & Ht & _). rewrite (known_true docs ix t Ht Hc) in Hk. discriminate. }
+    rewrite (phrase_freqs_absent docs ix ph t Hok Hin Hnot).
+    exists (repeat 0 (length docs)). split; [reflexivity|]. split; [apply repeat_length|].
+    intros d Hd. rewrite nth_repeat.
+    assert (E0 : occ ph (nth d docs []) = 0).
+    { apply (occ_absent t); [exact Hin|]. intro Hc. apply Hnot. apply in_concat.
+      exists (nth d docs []). split; [apply nth_In; exact Hd|exact Hc]. }
+    apply bounds_of_interval; [exact Hne| |lia].
+    unfold nonoverlapping, occ_nonoverlap.
+    pose proof (nonoverlap_le_occ ph Hne (S (length (nth d docs []))) (nth d docs [])). lia.
+Qed.
+
+(* C03, second sentence.  For every corpus within the limits, every batch size and EVERY phrase of two or more
+   terms -- immediate repetitions such as 'a a b' included, terms present in the corpus or not -- indexing
+   succeeds, and the phrase frequency of every document is positive exactly when the phrase occurs in it
+   contiguously, and lies between the greedy number of non-overlapping occurrences and the number of all
+   (overlapping) occurrences. *)
+Theorem phrase_repeats_bounds : forall docs bs ph, wf_docs docs -> (2 <= length ph)%nat ->
+  exists ix res, index false bs docs = AOk ix /\ phrase_freqs ix ph = AOk res /\ length res = length docs /\
+    forall d, (d < length docs)%nat ->
+      (nth d res 0 > 0 <-> occ ph (nth d docs []) > 0) /\
+      nonoverlapping ph (nth d docs []) <= nth d res 0 <= occ ph (nth d docs []).
+Proof.
+  intros docs bs ph Hwf Hlen. destruct (index_any_ok docs bs Hwf) as (ix & E & Hok).
+  destruct (phrase_repeats_on_index docs ix ph Hwf Hok Hlen) as (res & Er & Hl & Hb).
+  exists ix, res. split; [exact E|]. split; [exact Er|]. split; [exact Hl|]. exact Hb.
+Qed.
+
+Corollary phrase_repeats_positive_iff_contains : forall docs bs ph, wf_docs docs -> (2 <= length ph)%nat ->
+  exists ix res, index false bs docs = AOk ix /\ phrase_freqs ix ph = AOk res /\ length res = length docs /\
+    forall d, (d < length docs)%nat ->
+      (nth d res 0 > 0 <-> exists pre suf, nth d docs [] = pre ++ ph ++ suf).
+Proof.
+  intros docs bs ph Hwf Hlen. destruct (phrase_repeats_bounds docs bs ph Hwf Hlen) as (ix & res & E & Er & Hl & Hb).
+  exists ix, res. split; [exact E|]. split; [exact Er|]. split; [exact Hl|].
+  intros d Hd. destruct (Hb d Hd) as [Hp _]. rewrite Hp. apply occ_pos_iff.
+  intro; subst ph. cbn [length] in Hlen. lia.
+Qed.
+
+
+(* ------------------------------------------------------------------ *)
+(* 12. the hypotheses are satisfiable; the bounds are not equalities   *)
+(* ------------------------------------------------------------------ *)
+(* runs inside one word, two runs in one word, runs across the word boundary 17|18; the same vectors are
+   returned by the real code (SearchArray.index / termfreqs) for these documents.  For [1;1] the answer is
+   strictly between the two bounds on the second document (2 < 3 < 4). *)
+Example phrase_repeats_instance :
+  let docs := [[1;1;1;1;1]; [1;1;1;2;1;1;1]; [2;1;1]; [1;2;1];
+               repeat 2 17 ++ [1;1;1;2]; repeat 2 16 ++ [1;1;1;1;2;1;1;2]; [1;1;2;1;1;2;2;1;1;1;2]] in
+  let run ph := match index false 100 docs with AOk ix => phrase_freqs ix ph | _ => AExc ValueError end in
+  wf_docs docs /\
+  run [1;1] = AOk [2;3;1;0;2;4;3] /\
+    map (nonoverlapping [1;1]) docs = [2;2;1;0;1;3;3] /\ map (occ [1;1]) docs = [4;4;1;0;2;4;4] /\
+  run [1;1;1] = AOk [2;2;0;0;1;2;1] /\
+    map (nonoverlapping [1;1;1]) docs = [1;2;0;0;1;1;1] /\ map (occ [1;1;1]) docs = [3;2;0;0;1;2;1] /\
+  run [1;1;2] = AOk [0;1;0;0;1;2;3] /\ map (occ [1;1;2]) docs = [0;1;0;0;1;2;3] /\
+  run [2;2;1;1] = AOk [0;0;0;0;1;1;1] /\ map (occ [2;2;1;1]) docs = [0;0;0;0;1;1;1].
+Proof.
+  cbv zeta. split; [split; [repeat constructor; cbn; lia|rewrite pow28; cbn; lia]|].
+  repeat split; vm_compute; reflexivity.
+Qed.
+
+Print Assumptions same_term_word.
+Print Assumptions bigram_step_any.
+Print Assumptions compute_phrase_freqs_bounds.
+Print Assumptions phrase_repeats_on_index.
+Print Assumptions phrase_repeats_bounds.
+Print Assumptions phrase_repeats_positive_iff_contains.
